@@ -107,7 +107,8 @@ def classify(div, policy):
         return 'foreign', 'events differ (foreign kinds %s)' % sorted(kinds)
     if kind == 'state':
         fields = [d['field'] for d in div['diffs']]
-        mine = [f for f in fields if owned_field(f, policy.get('fields', []))]
+        own = list(policy.get('fields', [])) + list(policy.get('act_fields', {}).get(div.get('act', {}).get('name'), []))
+        mine = [f for f in fields if owned_field(f, own)]
         if mine:
             return 'violation', 'state differs in %s' % mine
         return 'foreign', 'state differs in foreign fields %s' % fields
@@ -238,6 +239,86 @@ def graph_job(prop, tier, seed, job, policy, known, acc):
     if not acc.get('sample'):
         w0 = json.loads(open(wpath).readlines()[1])
         acc['sample'] = {'spec': spec, 'walk': [{'act': s['act'], 'expect_ok': s['exp']['ok'], 'why': s['exp']['why']} for s in w0['steps'][:8]]}
+
+
+def parse_trace_out(path):
+    res, done, err = [], None, None
+    tail = []
+    for line in open(path, errors='replace'):
+        if line.startswith('<<"TRES", '):
+            res.append(G._unq(line, 'TRES'))
+        elif line.startswith('<<"TRACE_DONE"'):
+            p = line.strip().strip('<>').split(',')
+            done = (int(p[1]), int(p[2]))
+        else:
+            tail.append(line.rstrip())
+            if line.startswith('Error:') and err is None:
+                err = line.strip()
+    return res, done, err, tail[-25:]
+
+
+def trace_job(prop, tier, seed, job, policy, known, acc):
+    """impl -> spec: seeded random driver against the real contracts, log validated by TLC."""
+    module = job['module']
+    runs, steps = job[tier]
+    outdir = os.path.join(WORK, prop, 'trace_' + module)
+    os.makedirs(outdir, exist_ok=True)
+    trace = os.path.join(outdir, 'trace.ndjson')
+    t = time.time()
+    p = subprocess.run(['timeout', '3000', CONFORM, 'drive', module, str(seed), str(runs), str(steps), trace],
+                       stdout=subprocess.PIPE, stderr=subprocess.STDOUT, text=True)
+    if p.returncode != 0:
+        raise ToolError('conform drive failed: ' + p.stdout[-2000:])
+    dsecs = time.time() - t
+    nlines = sum(1 for _ in open(trace))
+    out, rc, tsecs = run_tlc(job['spec'], outdir, workers=1, timeout=job.get('tlc_timeout', 1800),
+                             extra_env={'TRACE': trace, 'JAVA_TOOL_OPTIONS': '-Xss1g -Dtlc2.tool.queue.IStateQueue=StateDeque'})
+    res, done, err, tail = parse_trace_out(out)
+    if rc == 124:
+        raise ToolError('TLC timed out validating the trace')
+    if done is None or done[1] != nlines:
+        raise ToolError('trace not consumed (%s of %d lines): %s\n%s' % (done, nlines, err, '\n'.join(tail)))
+    for r in res:
+        div = dict(r)
+        div['diffs'] = list(r.get('diffs', [])) + [{'field': 'inv.' + i} for i in r.get('inv', [])]
+        if not div['kind']:
+            div['kind'] = 'state'
+        verdict, reason = classify(div, policy)
+        if verdict == 'violation':
+            k = match_known(div, prop, known)
+            if k:
+                acc['known'].setdefault(k['id'], k)
+                continue
+            body = {'property': prop, 'tier': tier, 'seed': seed, 'kind': 'trace', 'module': module, 'spec': job['spec'],
+                    'runs': runs, 'steps': steps, 'line': r['l'], 'divergence': div, 'reason': reason,
+                    'record': open(trace).readlines()[r['l'] - 1].strip()}
+            os.makedirs(os.path.join(ROOT, 'replays'), exist_ok=True)
+            h = hashlib.sha1(json.dumps(body, sort_keys=True).encode()).hexdigest()[:12]
+            path = os.path.join(ROOT, 'replays', '%s-trace-%s.json' % (prop, h))
+            json.dump(body, open(path, 'w'), indent=1)
+            acc['violations'].append({'replay': path, 'reason': reason, 'spec': job['spec'], 'act': r.get('act')})
+        elif verdict == 'drift':
+            acc['drift'].append({'spec': job['spec'], 'act': r.get('act'), 'reason': reason})
+        else:
+            acc['foreign'].append({'spec': job['spec'], 'kind': div['kind'], 'act': r.get('act', {}).get('name'), 'reason': reason})
+    # what the trace looked like
+    names = {}
+    sample = []
+    with open(trace) as f:
+        f.readline()
+        for i, l in enumerate(f):
+            o = json.loads(l)
+            if o.get('reset'):
+                continue
+            k = '%s/%s' % (o['act']['name'], 'ok' if o['obs']['ok'] else 'rejected')
+            names[k] = names.get(k, 0) + 1
+            if len(sample) < 4:
+                sample.append({'act': o['act'], 'ok': o['obs']['ok']})
+    acc['jobs'].append({'spec': job['spec'], 'module': module, 'traces': runs, 'trace_events': nlines - 1 - runs,
+                        'mismatches': len(res), 'drive_s': round(dsecs, 1), 'tlc_s': round(tsecs, 1),
+                        'events_by_action_outcome': names,
+                        'distinct_nontrivial': len(names)})
+    acc.setdefault('trace_samples', []).append({'trace_of': module, 'events': sample})
 
 
 def write_evidence(prop, tier, seed, acc, wall, level_rule, assumptions):
